@@ -105,7 +105,7 @@ pub fn run(n: usize, rng: &mut Rng, rep: &mut Report) {
         if !rules.is_empty() && rng.chance(1, 2) {
             let mut r = build(&rules);
             let _ = guarded(|| r.iter().copied().collect::<Vec<usize>>());
-            let victim = *rng.pick(&rules[rng.below(rules.len())].marks);
+            let vi = rng.below(rules.len()); let victim = *rng.pick(&rules[vi].marks);
             r.remove(victim);
             let got2 = match guarded(|| r.iter().copied().collect::<Vec<usize>>()) {
                 Ok(v) => format!("ok:{}", v.iter().map(|x| x.to_string()).collect::<Vec<_>>().join(",")),
